@@ -43,6 +43,29 @@ def run(rep, br, proofs, rng, tier):
         encodings.append(sx[6])
         for bad in sx[7:]:
             fails.append((c, "%s on mutated encoding (%s): %s" % (bad[0], bad[1], bad[3][:200]), "decraw " + bad[2]))
+    # structure-aware corruption of version 1 instruction streams (sizes stay consistent):
+    # implementation under recover, and the model converter (Byte/V1Conv.v) on a sample
+    v1cases = [mk_case("v%d" % i, "v1mut", hexs(s.encode())) for i, s in enumerate(progs)]
+    impl_v, _ = vlib.run_impl([c["line"] for c in v1cases], timeout=3000)
+    v1total = 0; v1model = []
+    for c, s in zip(v1cases, progs):
+        out = impl_v.get(c["id"])
+        if out is None: fails.append((c, "no output from v1 mutation run", s)); continue
+        if out == "(compile-error)": continue
+        sx = vlib.parse_sexp(out)
+        v1total += int(sx[1])
+        for b in sx[3][1:]:
+            fails.append((c, "version 1 decoder panicked on a corrupted instruction stream", "v1insts " + b))
+        for smp in sx[4][1:]:
+            mc = mk_case("%s.m%d" % (c["id"], len(v1model)), "v1conv", smp[0], smp[1]); mc["implclass"] = smp[2]
+            v1model.append(mc)
+    model_v, _ = vlib.run_model([m["line"] for m in v1model], timeout=2400)
+    v1dis = []
+    for m in v1model:
+        got = model_v.get(m["id"], "")
+        mclass = "ok" if got.startswith("(ok") else "err" if got.startswith("(err") else "panic"
+        # the implementation may fail later (MakeInstruction operand range) or earlier; compare panic-freedom and ok/err
+        if mclass != m["implclass"]: v1dis.append((m, got))
     # model tie on objects: mutated encodings of values, both sides
     vals = [c04.gen_cval(rng, rng.choice([0, 1, 2, 3])) for _ in range(max(50, nobj // 20))]
     enc_cases = [mk_case("e%d" % i, "enc", v) for i, v in enumerate(vals)]
@@ -71,6 +94,9 @@ def run(rep, br, proofs, rng, tier):
     for c, why, extra in fails[:10]:
         rep.violation({"property": "C18", "kind": "oracle", "why": why, "case": c["line"][:3000], "input": extra[:6000]})
     if not fails:
+        for m, got in v1dis[:10]:
+            rep.violation({"property": "C18", "kind": "correspondence", "why": "version 1 converter model and implementation disagree on the outcome class of a corrupted instruction stream",
+                           "case": m["line"][:3000], "impl": m["implclass"], "model": str(got)[:500]}, found=False)
         for c in dis[:10]:
             rep.violation({"property": "C18", "kind": "correspondence", "why": "decoder model and implementation disagree on a malformed object encoding (no panic observed on the implementation)",
                            "case": c["line"][:3000], "impl": str(c["impl"])[:500], "model": str(c["model"])[:500]}, found=False)
@@ -79,12 +105,16 @@ def run(rep, br, proofs, rng, tier):
         "rule": "all truncations and single-byte corruptions (8 replacement values per position) of the version 2 and version 1 encodings of generated programs, decoded under recover with allocation measured; plus seeded single/double byte corruptions, truncations and arbitrary byte strings decoded as objects by implementation and model; non-trivial = the decoder rejected the input (the corruption reached a tag, length or count field)",
         "samples": [pcases[0]["line"][:300], dcases[0]["line"], dcases[-1]["line"]],
         "bytecode_mutations": total, "bytecode_mutations_ok": ok, "bytecode_mutations_err": err,
+        "v1_instruction_mutations": v1total, "v1_model_compared": len(v1model), "v1_model_disagreements": len(v1dis),
         "object_mutations": len(dcases), "object_outcome_classes": classes, "inconclusive": inconclusive,
         "disagreements": len(dis), "oracle_failures": len(fails)})
 
 def replay(payload, br):
     print(payload.get("why"))
     inp = payload.get("input", "")
+    if inp.startswith("v1insts "):
+        line = "(case r v1conv %s (sm))" % inp.split(" ", 1)[1]
+        model, _ = vlib.run_model([line]); print("model converter:", model); return 1
     if inp.startswith("decraw "):
         line = "(case r decraw %s 0)" % inp.split(" ", 1)[1]
         impl, _ = vlib.run_impl([line]); print(impl)
